@@ -56,12 +56,33 @@ def workload(tier: str, seed: int) -> tuple[list[dict], list[dict], list[dict], 
                           "prefix_incomplete": incomplete,
                           "uuid_seed": f"{seed}-{g}-{si}", "rng_seed": f"{seed}-{g}-{si}",
                           "work_dir": wd, "cap": 1200 if tier == "quick" else 3000})
+    # beyond F: executions with counts > 1 - judged on the models (exact) only
+    from vlib import gen
+    rngc = random.Random(f"c04-counts-{seed}")
+    cdefs = []
+    for i in range(25 if tier == "quick" else 300):
+        ast = gen.random_counts_def(rngc)
+        cdefs.append({"name": f"cnt{i}", "kind": "counts", "ast": ast,
+                      "tags": sorted(gen.tags_of(ast) | {"beyond-F", "counts"})})
+    cbase, _cs = lcase.s1_cases(cdefs, seed, k_list=(2,), schedules=1)
+    ncounts = 0
+    for g, b in enumerate(cbase):
+        n = len(b["jobs"])
+        for si, sp in enumerate(splits_of(n, rng, 0, 2)):
+            ncounts += 1
+            cases.append({"group": 10**6 + g, "name": b["name"], "kind": b["kind"],
+                          "src": b["src"], "tags": b["tags"], "jobs": b["jobs"], "split": sp,
+                          "prefix_incomplete": [True] * (len(sp) - 1), "model_only": True,
+                          "uuid_seed": f"{seed}-c{g}-{si}", "rng_seed": f"{seed}-c{g}-{si}",
+                          "work_dir": wd, "cap": 1200})
+    stats["histories_with_counts_model_only"] = ncounts
     stats["definitions"] = len(defs)
     stats["histories"] = len(cases)
     stats["histories_with_pure_reload"] = sum(1 for c in cases if not c["split"][-1])
     stats["histories_3_chunks"] = sum(1 for c in cases if len(c["split"]) == 3)
     # the same through the real CLI in separate processes
-    pick = [c for c in cases if 2 <= len(c["jobs"]) <= 8 and all(c["split"])]
+    pick = [c for c in cases if 2 <= len(c["jobs"]) <= 8 and all(c["split"])
+            and not c.get("model_only")]
     rng.shuffle(pick)
     cli_cases = [dict(c, _wall_limit=900) for c in pick[:ncli]]
     stats["cli_histories"] = len(cli_cases)
@@ -97,6 +118,7 @@ def main(tier: str, seed: int) -> int:
            "equal_by_normal_form": 0, "equal_by_language": 0, "both_unparsable": 0,
            "both_fail": 0, "gate_tree_reads": 0, "pure_reload_histories": 0,
            "cli_histories": 0, "cli_process_runs": 0, "roundtrip_models": 0,
+           "model_only_histories": 0, "branch_count_events_compared": 0,
            "roundtrip_max_count": 0, "roundtrip_with_empty_lists": 0}
 
     def tags_for(c: dict, r: dict) -> list[str]:
@@ -122,6 +144,9 @@ def main(tier: str, seed: int) -> int:
         if not c["split"][-1]:
             obs["pure_reload_histories"] += 1
         obs["gate_tree_reads"] += r.get("gate_tree_reads", 0)
+        if c.get("model_only"):
+            obs["model_only_histories"] += 1
+            obs["branch_count_events_compared"] += r.get("bcnt_events", 0)
         if not r["one_ok"] and not r["final_ok"]:
             obs["both_fail"] += 1
         if r["final_ok"] and not any(v["symptom"].startswith("model-") for v in r["violations"]):
